@@ -303,5 +303,43 @@ impl Message {
 //%mutant any_empty_record_is_opt "RData::Update0(RecordType::OPT) | RData::OPT(_)" => "RData::Update0(_) | RData::OPT(_)"
 //%end
 }
+
+// ---- the server-side request reader (message_request.rs): same section loops, one question ----
+pub struct LowerQuery { pub original: Query }
+// lower_query.rs: `Query::read(decoder).map(Self::from)`; From<Query> only folds the name's case
+pub fn vp_lower_query_read<'r>(decoder: &mut BinDecoder<'r>) -> (r: Result<LowerQuery, DecodeError>)
+    requires old(decoder).wf()
+    ensures final(decoder).wf(), final(decoder).buf() == old(decoder).buf(), final(decoder).idx() >= old(decoder).idx(),
+        r is Ok ==> final(decoder).idx() >= old(decoder).idx() + 5,
+{ match query_read(decoder) { Ok(q) => Ok(LowerQuery { original: q }), Err(e) => Err(e) } }
+pub struct VpBoxedBytes { pub v: Vec<u8> }
+pub struct Queries { pub inner: LowerQuery, pub original: VpBoxedBytes }
+impl Queries {
+//%fn crates/proto/src/op/message_request.rs :: impl Queries :: read
+//%sub1 "LowerQuery::read(decoder)?" => "vp_lower_query_read(decoder)?" # R-sel: call of the (modelled) trait method
+//%sub1 ".to_vec() .into_boxed_slice()" => ".vp_to_boxed()" # R-shim: <[u8]>::to_vec + Vec::into_boxed_slice (copy of the bytes)
+//%contract
+        requires old(decoder).wf()
+        ensures final(decoder).wf(), final(decoder).buf() == old(decoder).buf(), final(decoder).idx() >= old(decoder).idx(),
+            r is Ok ==> num_queries == 1 && final(decoder).idx() >= old(decoder).idx() + 5,
+//%end
+}
+pub trait VpToBoxed { fn vp_to_boxed(&self) -> VpBoxedBytes; }
+impl VpToBoxed for &[u8] { #[verifier::external_body] fn vp_to_boxed(&self) -> (r: VpBoxedBytes) { unimplemented!() } }
+pub struct MessageRequest { pub metadata: Metadata, pub queries: Queries, pub answers: Vec<Record>, pub authorities: Vec<Record>,
+    pub additionals: Vec<Record>, pub signature: Option<Box<Record<TSIG>>>, pub edns: Option<Edns> }
+impl MessageRequest {
+//%fn crates/proto/src/op/message_request.rs :: impl MessageRequest :: read_with_queries
+//%contract
+        requires old(decoder).wf()
+        ensures final(decoder).wf(), final(decoder).buf() == old(decoder).buf(), final(decoder).idx() >= old(decoder).idx(),
+//%end
+//%fn crates/proto/src/op/message_request.rs :: impl MessageRequest :: read
+//%contract
+        requires old(decoder).wf()
+        // C01: "... as a server-side request ..." terminates with a value or an error, inside the packet
+        ensures final(decoder).wf(), final(decoder).buf() == old(decoder).buf(), final(decoder).idx() >= old(decoder).idx(),
+//%end
+}
 } // verus!
 fn main() {}
